@@ -115,6 +115,7 @@ def run_property(prop: str, tier: str, seed: int):
             results = H.run_sharded(
                 standard_worker(mod, tier, seed),
                 timeout_s=getattr(mod, "TIMEOUT", {"quick": 900, "thorough": 6 * 3600})[tier],
+                partial_ok=lambda r: r[1] is not None,
             )
             viol = None
             for st, v, ex in results:
@@ -151,7 +152,7 @@ def run_property(prop: str, tier: str, seed: int):
         "seed": seed,
         "level": getattr(mod, "LEVEL", "exploration"),
         "coverage": cov,
-        "assumptions": list(getattr(mod, "ASSUMPTIONS", [])),
+        "assumptions": list(getattr(mod, "ASSUMPTIONS", [])) + ([f"{len(H.SHARD_ERRORS)} shard(s) ended with a harness error while another shard found the reported violation"] if H.SHARD_ERRORS and violation else []),
         "wall_s": round(wall, 2),
         "violations": 0 if violation is None else 1,
     }
